@@ -178,6 +178,14 @@ fn q_grid(n: usize) -> Vec<f64> {
         v.push((m as f64 + 0.5) / n as f64);
         v.push(m as f64 / n as f64);
     }
+    // quantiles whose product with n lies a definite distance below / above a rounding tie
+    // (round(q n) must not move for them)
+    for m in (2..n.saturating_sub(2)).step_by(if n <= 120 { 1 } else { (n / 40).max(1) }) {
+        for d in [1e-12, 3e-10, 8e-10, 1e-7, 1e-3] {
+            v.push((m as f64 + 0.5 - d) / n as f64);
+            v.push((m as f64 + 0.5 + d) / n as f64);
+        }
+    }
     v.extend([-0.1, 0.0, -0.0, 1.0, 1.1, f64::NAN, 1.0 - 2f64.powi(-53), 5e-324, f64::INFINITY, f64::NEG_INFINITY]);
     v
 }
@@ -264,6 +272,8 @@ fn judge_elements<T: Elem>(ty: &str, sorted: &[T], order: &[usize], confs: &[(Ki
                 s.calls += 1;
                 match r {
                     Err(_) => s.count("documented-capacity-panics", 1),
+                    // (an error instead of the panic would also report the overflow)
+                    Ok(Err(_)) => s.count("documented-capacity-panics", 1),
                     Ok(r) => s.violation("elements/ci_max_size-capacity-overflow-not-reported", format!("ci_max_size::<CAP={}>(n={n}) = {r:?} instead of the documented panic", n - 1), case()),
                 }
             }
